@@ -8,6 +8,14 @@ the functions the `table` driver suite executes in the correspondence run.
 **Which tree.**  The model transcribes `/repo` as it stands now: the pinned commit plus the `fix:` commits recorded in
 `/verif/KNOWN_FINDINGS.json` (status `fixed`).  Where a theorem below rests on repaired code — the cache dropped on index-cell writes, `count_dict.get(name, 0)` for absent names — it is false of
 the tree as first pinned; the witnesses are kept (defects D9, D11).
+
+**Side conditions and gaps.**  The string-form, cell-access and unique-label theorems are CONDITIONAL on the index column's
+names being separator-free / not ending in a separator character (`SepFree`, `SepStrict`, `SepsOK`; each shown necessary by
+an example; outside them the statement is false of model and code: known finding D32).  The history language `TOp` has
+setCol / setCell / delCol / getIndex / getCell steps but no `rows[...]` / `indices` / `mask` step (they only warm the cache:
+`TableM.indicesOf_keeps`), so "all histories" in docstrings means histories over `TOp`.  There is no theorem for the tuple
+form inside a cell access `t[col, (name, count[, offset])]` (its own fast path in `resolveCellRow`); the correspondence run
+and the scan oracle cover it.  The driver always builds tables with the default separators.
 -/
 namespace Properties.C07
 open TableM Cache
